@@ -24,7 +24,11 @@ func spaces(thorough bool) []chanmc.Space {
 		for _, noDLP := range []bool{false, true} {
 			openerB := (ti%2 == 1) != noDLP
 			// one HTLC each way, every cut point, one cut: full interleaving
-			sc := []chanmc.Intent{{By: 0, Amt: sat(th[1]-1, 999), Fate: "settle"}, {By: 1, Amt: sat(30000, 0), Fate: "fail"}}
+			fate := "fail"
+			if ti%2 == 1 {
+				fate = "malformed"
+			}
+			sc := []chanmc.Intent{{By: 0, Amt: sat(th[1]-1, 999), Fate: "settle"}, {By: 1, Amt: sat(30000, 0), Fate: fate}}
 			if noDLP {
 				// two HTLCs in the same direction, both settled: pipelined
 				// removals overlapping with the other side's signature
@@ -32,6 +36,9 @@ func spaces(thorough bool) []chanmc.Space {
 			}
 			out = append(out, chanmc.Space{Dev: -1, P: chanmc.Params{Type: typ, OpenerB: openerB, MaxCuts: 1, NoDLP: noDLP, Script: sc}})
 		}
+		// two consecutive fee updates by the opener and no HTLC, one cut anywhere
+		// (an update acked-but-unsigned by the peer next to one pending in a commit diff)
+		out = append(out, chanmc.Space{Dev: -1, P: chanmc.Params{Type: typ, OpenerB: ti%2 == 1, MaxCuts: 1, Fees: []int64{6500, 7100}}})
 		// one HTLC, two cuts anywhere (incl. during resynchronisation), full interleaving
 		out = append(out, chanmc.Space{Dev: -1, P: chanmc.Params{Type: typ, OpenerB: ti%2 == 0, MaxCuts: 2, Fees: []int64{6500}, Script: []chanmc.Intent{
 			{By: 0, Amt: sat(25000, 1), Fate: "settle"},
